@@ -789,11 +789,6 @@ def run_gaunt(ctx, w, K, n):
             z = rng.choice([0.0, 1.0, 2.0, 6.0, 0.5, 18.0, -1.0])
             te = 10 ** rng.uniform(-2, 5)
             wvl = 10 ** rng.uniform(-1, 5)
-            k = rng.random()
-            if k < 0.25 and z != 0:
-                # hit a boundary of u exactly where double arithmetic allows: choose wvl with ph/(te*wvl) == bound
-                bound = rng.choice([umin, umax])
-                wvl = ph / (te * bound)
             got = float(G(z, te, wvl))
             gam = z * z * C_RYD / te
             uu = ph / (te * wvl)
@@ -802,7 +797,7 @@ def run_gaunt(ctx, w, K, n):
             desc = dict(function='InterpolatedFreeFreeGauntFactor', z=z, te=te, wavelength=wvl, u_range=(umin, umax), gamma2_range=(gmin, gmax),
                         table='%r + %r log10(u) + %r log10(gamma2)' % (i0, i1, i2))
             if guard:
-                ctx.count('gaunt:boundary(value only)')
+                ctx.count('gaunt:guard-band-skipped')
             K.add('gaunt', 'gaunt %s' % fs([PI, z, te, wvl, umin, umax, gmin, gmax, i0, i1, i2]), ('G', br if not guard else None, got), desc)
             ctx.count('gaunt:branch%d' % br)
             ctx.case(key=('gaunt', tab, it))
@@ -810,6 +805,74 @@ def run_gaunt(ctx, w, K, n):
                     i0 + i1 * math.log10(uu) + i2 * math.log10(gam) if (uu > 0 and gam > 0) else None)[br]
             if not guard and not close(got, want, 1e-9, 1e-12):
                 ctx.fail('C03:InterpolatedFreeFreeGauntFactor:branch-value', 'g_ff = %r, documented branch %d value %r' % (got, br, want), desc)
+    # ---- exact boundary stream: limits are exact powers of ten (log10 exact in numpy and libm alike) and (te, wvl) are
+    #      searched so that the double the code computes for u / gamma2 *equals* the limit: the comparisons
+    #      `u >= u_max`, `u < u_min`, `gamma2 >= gamma2_max`, `gamma2 < gamma2_min` are hit with equality
+    def hit(f, x0):
+        """a double x near x0 with f(x) == target exactly (f monotone), or None"""
+        x = x0
+        for _ in range(40):
+            x = math.nextafter(x, 0.0)
+        for _ in range(80):
+            if f(x):
+                return x
+            x = math.nextafter(x, math.inf)
+        return None
+    for it in range(max(8, n // 10)):
+        z = rng.choice([1.0, 2.0, 6.0, 0.5])
+        which = ('umax', 'umin', 'g2max', 'g2min')[it % 4]
+        b = 10.0 ** rng.randint(-3, 2)
+        if which in ('umax', 'umin'):
+            x = hit(lambda x: ph / x == b, ph / b)                   # x = te * wvl
+            if x is None:
+                ctx.count('gaunt:exact-boundary:no-preimage')
+                continue
+            te = 2.0 ** rng.randint(-2, 10)
+            wvl = x / te                                                # exact (power of two)
+            if te * wvl != x:
+                continue
+            g0 = z * z * C_RYD / te
+            u = b * 10.0 ** np.arange(-3, 1) if which == 'umax' else b * 10.0 ** np.arange(0, 4)
+            g2 = np.array([g0 * 1e-3, g0 * 1e-1, g0 * 10, g0 * 1e3])
+        else:
+            te = hit(lambda t: z * z * C_RYD / t == b, z * z * C_RYD / b)
+            if te is None:
+                ctx.count('gaunt:exact-boundary:no-preimage')
+                continue
+            wvl = 10 ** rng.uniform(0, 4)
+            u0 = ph / (te * wvl)
+            g2 = b * 10.0 ** np.arange(-3, 1) if which == 'g2max' else b * 10.0 ** np.arange(0, 4)
+            u = np.array([u0 * 1e-3, u0 * 1e-1, u0 * 10, u0 * 1e3])
+        uu, gam = ph / (te * wvl), z * z * C_RYD / te
+        i0, i1, i2 = 1.25, 0.125, -0.0625
+        table = i0 + i1 * np.log10(u)[:, None] + i2 * np.log10(g2)[None, :]
+        G = InterpolatedFreeFreeGauntFactor(u, g2, table)
+        umin, umax, gmin, gmax = float(u.min()), float(u.max()), float(g2.min()), float(g2.max())
+        assert (uu == umax, uu == umin, gam == gmax, gam == gmin)[('umax', 'umin', 'g2max', 'g2min').index(which)]
+        st, got = call(G, z, te, wvl)
+        br = 1 if which in ('umax', 'g2max') else 3     # documented: classical limit *at and above* the upper limits, table from the lower limits on
+        want = 1.0 if br == 1 else i0 + i1 * math.log10(uu) + i2 * math.log10(gam)
+        desc = dict(function='InterpolatedFreeFreeGauntFactor', boundary=which, z=z, te=te, wavelength=wvl, u_range=(umin, umax), gamma2_range=(gmin, gmax))
+        ctx.count('gaunt:exact-boundary:' + which)
+        ctx.case(key=('gaunt-boundary', which, it))
+        if st != 'ok':
+            ctx.fail('C03:InterpolatedFreeFreeGauntFactor:boundary:%s:raised' % which, 'raised %s exactly at %s: %s' % (st, which, got), desc)
+            continue
+        got = float(got)
+        K.add('gaunt', 'gaunt %s' % fs([PI, z, te, wvl, umin, umax, gmin, gmax, i0, i1, i2]), ('G', br, got), desc)
+        if not close(got, want, 1e-9, 1e-12):
+            ctx.fail('C03:InterpolatedFreeFreeGauntFactor:boundary:' + which, 'g_ff = %r exactly at %s, documented %r' % (got, which, want), desc)
+    # observation (not a C03 violation, counted only): for table limits that are not exact powers of ten, numpy's log10
+    # (grid) and libm's log10 (argument) may differ by one ulp, so an argument exactly on a lower limit can fall outside
+    # the interpolator's grid and raise ValueError
+    nraise = 0
+    for it in range(max(8, n // 10)):
+        te, wvl = 10 ** rng.uniform(-1, 4), 10 ** rng.uniform(0, 4)
+        g0, u0 = C_RYD / te, ph / (te * wvl)
+        G = InterpolatedFreeFreeGauntFactor([u0 * 1e-2, u0, u0 * 1e2], [g0, g0 * 1e2, g0 * 1e4], np.ones((3, 3)))
+        st, _ = call(G, 1.0, te, wvl)
+        nraise += st != 'ok'
+    ctx.count('observation:gaunt-arbitrary-lower-limit-hit-exactly:interpolator-range-error', nraise)
     # S only: the shipped Maxwellian table is reproduced at its knots, classical limit above, Born below
     M = MaxwellianFreeFreeGauntFactor()
     raw = M.raw_data
@@ -933,7 +996,7 @@ def run(ctx):
                     'translator harness/translators/constants.py (regex over constants.pyx, gaunt.pyx DEF EULER_GAMMA, thermal_cx.pyx donor loop, '
                     'total_radiated_power.pyx hydrogen tuple); validated by the correspondence run']
     ctx.assumptions += ['line-shape models are normalised (C02): the wavelength-integrated line emission is the radiance passed to add_line',
-                        'finite inputs; Gaunt-factor inputs within 1e-12 (relative) of a branch boundary compare the value only (counted)',
+                        'finite inputs; random Gaunt-factor inputs within 1e-12 (relative) of a branch boundary are skipped (counted); the boundaries are hit exactly in a separate stream',
                         'accuracy of the Gauss-Legendre bin integral and Gaunt-factor table values are checked by S only (partial)']
     gen = tr_constants.generate()
     ctx.extra['translated'] = dict(cx_density_guard=gen['cx_density_guard'], cx_temperature_guard=gen['cx_temperature_guard'],
@@ -944,12 +1007,12 @@ def run(ctx):
     K = Cases(ctx)
     replay_corpus(ctx, w)
     run_cx_edges(ctx, w, K)
-    run_line_models(ctx, w, K, ctx.n(260, 5000))
-    run_trp(ctx, w, K, ctx.n(260, 5000))
-    run_brems(ctx, w, K, ctx.n(60, 900))
-    run_gaunt(ctx, w, K, ctx.n(200, 3000))
-    run_radfn(ctx, w, K, ctx.n(40, 400))
-    run_end_to_end(ctx, w, ctx.n(3, 25))
+    run_line_models(ctx, w, K, ctx.n(3000, 40000))
+    run_trp(ctx, w, K, ctx.n(3000, 40000))
+    run_brems(ctx, w, K, ctx.n(300, 4000))
+    run_gaunt(ctx, w, K, ctx.n(800, 10000))
+    run_radfn(ctx, w, K, ctx.n(60, 600))
+    run_end_to_end(ctx, w, ctx.n(4, 40))
     outs = ctx.driver(K.lines)
     ctx.traces = len(K.lines)
     compare(ctx, K, outs)
@@ -1018,4 +1081,6 @@ def replay(ctx, path):
     w = World_.get()
     res = replay_one(ctx, w, r)
     print('replayed on the real code: (implementation, documented) =', res)
+    if res is None:
+        run(ctx)            # not a single-model replay (e.g. a broken obligation): re-run the whole check
     return ctx.finish()
